@@ -53,12 +53,16 @@ impl Det {
     }
     /// Run the real per-file entry point. Err = the analysis panicked.
     pub fn run(&self, src: &str) -> Result<BTreeSet<i32>, String> {
+        self.run_as(src, 0)
+    }
+    /// The same with another file number (the position of the file in its directory: it only tags locations).
+    pub fn run_as(&self, src: &str, file_number: usize) -> Result<BTreeSet<i32>, String> {
         let d = *self;
         let s = src.to_string();
         guarded(move || match d {
-            Det::Opt(o) => optimizations::analyze_for_optimization(&s, 0, o),
-            Det::Vul(v) => vulnerabilities::analyze_for_vulnerability(&s, 0, v),
-            Det::Qa(q) => qa::analyze_for_qa(&s, 0, q),
+            Det::Opt(o) => optimizations::analyze_for_optimization(&s, file_number, o),
+            Det::Vul(v) => vulnerabilities::analyze_for_vulnerability(&s, file_number, v),
+            Det::Qa(q) => qa::analyze_for_qa(&s, file_number, q),
         })
     }
 }
